@@ -45,6 +45,14 @@ CHECKS = {
          "Panic-freedom and bounded allocation for fromBytes on the muxer's full 65535-byte symbolic buffer, recvAck with every 32-bit acknowledgement from an invariant-satisfying sender with <=2 (quick) / <=3 (thorough) unacked frames, and every application decoder (exec, window size, userauth, authgrant messages, proxy responses) on symbolic streams with EOF at several positions. The muxer's receive loop as a whole and 'can still be stopped cleanly' are not covered.",
          "Length-like bytes of multi-field messages are picked from a grid (stated per harness) so that offsets stay concrete; all other bytes symbolic. Tube reads are replaced by a finite symbolic stream.",
          "SSA symbolic execution + SMT (z3), panic/allocation obligations on symbolic input buffers"),
+ "C12": ("DESIGN.md §5 C12",
+         "Over an UNINTERPRETED 6-round permutation (25 uninterpreted functions of the 25 lanes): Seal then Open is the identity for two-message sessions on the boundary grid |P| in {0,1,199,200,201,400} x |A| in {0,16,200,201}; a message opens only if all 32 tag bytes equal the tag of its plaintext (re-seal obligation on arbitrary bytes); the mask derivation hands key||0x01||0* to the permutation for every key length 1..199 and refuses >= 200; in-place Seal/Open (dst overlapping the input at offset 0 or behind a header) equals out-of-place use and leaves the AD alone; the one-shot Kravatte function equals a specification transcription for input lengths {0,1,199,200,201,399,400,401,600} x output lengths {1,32,200,201,400}.",
+         "The assembly permutation is outside (uninterpreted): 'equals the published XKCP outputs' end to end is not claimed, nor that different ciphertexts give different tags (the primitive's strength). Lengths off the grid are outside. replay=none (uninterpreted functions have no native meaning); cvc5 decides the UF-heavy harnesses.",
+         "SSA symbolic execution + SMT (z3/cvc5, QF_UFBV), differential against a specification transcription over an uninterpreted permutation"),
+ "C13": ("DESIGN.md §5 C13",
+         "One call of Absorb / Squeeze / SqueezeKey / Ratchet / Encrypt / Decrypt from an ARBITRARY state (phase, mode, 1600 symbolic state bits) and Initialize(key,id,counter) equal a transcription of the Cyclist specification (outputs and post-state), operand lengths {0,1,135,136,137,271,272,273} across the 136-byte rate, over a shared uninterpreted 12-round permutation; wrong-mode calls panic; Encrypt on one object and Decrypt on another in the same state leave both in the same state with equal next tags. One step from an arbitrary state covers operation sequences of any length.",
+         "The permutation itself (amd64 assembly, and the generic Go version) is uninterpreted here: 'instantiated with 12-round Keccak-p[1600]' is not decided by this check. Lengths off the grid are outside. replay=none; cvc5.",
+         "SSA symbolic execution + SMT (cvc5, QF_UFBV), one-step differential against a specification transcription"),
  "C14": ("DESIGN.md §5 C14",
          "One-step inductive argument (arbitrary window state satisfying a stated representation invariant, one Check/Mark, invariant and Check<=>set-spec afterwards) covers histories of any length; a k<=3 (quick) / k<=4 (thorough) BMC from the zero state guards the invariant against vacuity. Counters >= 2^63 are outside the claim, as in the property.",
          "Trusted: go/ssa, the engine's interpreter, z3; the invariant is stated in harness/transport/c14_replay.go. Mark's clearing loop is unrolled completely (<= 8 iterations, unwinding checked).",
